@@ -323,7 +323,7 @@ func (i *interpreter) external(fn *ssa.Function) externalFn {
 		return nil
 	}
 	wrapped := func(fr *frame, a []value) value {
-		i.ex.noteNative(name)
+		i.noteNative(name)
 		return e(fr, a)
 	}
 	i.extCache[fn] = wrapped
@@ -386,6 +386,7 @@ func extVhBool(fr *frame, a []value) value {
 	name := a[0].(string)
 	v := fr.i.newVar(name, boolSort)
 	fr.i.recordInput(name, "bool", v, 0)
+	fr.i.path.domains[v.Name] = &domain{v: v, vals: []uint64{0, 1}}
 	return sym{v}
 }
 
@@ -402,6 +403,13 @@ func extVhChoice(fr *frame, a []value) value {
 	v := fr.i.newVar(name, bvSort(64))
 	fr.i.recordInput(name, "int", v, 0)
 	fr.i.addPC(tAnd(bvCmp("bvsle", mkBV(0, 64), v), bvCmp("bvslt", v, mkBV(uint64(n), 64))))
+	if n <= 256 {
+		d := &domain{v: v}
+		for k := int64(0); k < n; k++ {
+			d.vals = append(d.vals, uint64(k))
+		}
+		fr.i.path.domains[v.Name] = d
+	}
 	return sym{v}
 }
 
